@@ -51,6 +51,12 @@ func (tb *TokenBuffer) Reset() {
 	}
 	tb.pages = tb.pages[:0]
 	tb.curPage = nil
+	// Forget the per-macroblock start positions of the previous pass / previous
+	// encode (pooled encoder): skipped macroblocks never call MarkMBStart, so a
+	// stale entry would make EmitTokensPartitioned emit a stale token range.
+	for i := range tb.mbStart {
+		tb.mbStart[i] = -1
+	}
 	tb.addPage()
 }
 
@@ -329,6 +335,13 @@ func (tb *TokenBuffer) EmitTokensPartitioned(bw *bitio.BoolWriter, partIdx, numP
 	totalMB := tb.totalMB
 	// Mark the end sentinel so we know the range of the last MB.
 	tb.mbStart[totalMB] = tb.tokenCount()
+	// A macroblock that recorded no tokens (skipped) has an empty range that ends
+	// where the next recorded macroblock begins.
+	for i := totalMB - 1; i >= 0; i-- {
+		if tb.mbStart[i] < 0 {
+			tb.mbStart[i] = tb.mbStart[i+1]
+		}
+	}
 
 	for mbIdx := 0; mbIdx < totalMB; mbIdx++ {
 		mbY := mbIdx / mbW
